@@ -65,8 +65,75 @@ def base_outcome(out, obs, spec, req_json, rcfg, needed):
     out.sim_time = float(sim.events)
 
 
+def use_threads(tape, cfg):
+    """First draw of every scheduler-check run: engine E2 (1 in `e2_den`) or E1."""
+    den = cfg.get("e2_den", 12)
+    return tape.draw(den, "engine") == den - 1
+
+
+def gen_threads_workload(tape, cfg, with_fail=False):
+    from sim import schedthreads as st
+
+    spec = gg.gen_graph(tape, max_nodes=min(cfg["max_nodes"], 10), min_nodes=2)
+    keyset = {gg.K(n["key"]) for n in spec["nodes"]}
+    tcfg = st.gen_threads_cfg(tape)
+    clients, reqs = [], []
+    for _ in range(tcfg["nclients"]):
+        rj = gg.gen_request(tape, spec)
+        reqs.append(rj)
+        clients.append({"request": gg.req_keys(rj, keyset), "fail": None})
+    return spec, tcfg, clients, reqs
+
+
+def threads_outcome(out, obs_list, sched, spec, reqs, tcfg, needed_sizes):
+    out.digest = sched.digest()
+    out.wdigest = sr.workload_digest(spec, reqs, {"entry": "threads:" + tcfg["pool_mode"],
+                                                  "num_workers": tcfg["num_workers"],
+                                                  "chunksize": tcfg["chunksize"]})
+    out.policy = "E2:" + tcfg["policy"]
+    out.klass = "threads"
+    out.decoded = {"graph": spec, "requests": reqs, "threads_cfg": tcfg, "engine": "E2"}
+    ab = set()
+    for o in obs_list:
+        ab.update(o.rec.abstract)
+    out.abstract = tuple(ab)
+    out.sim_time = float(sched.steps)
+    par = sched.probes.get("parallel_items", 0)
+    out.nontrivial = max(needed_sizes or [0]) >= 3 and par > 0
+    out.probe("e2_runs")
+    if par:
+        out.probe("e2_parallel_bodies")
+    if tcfg["nclients"] >= 2:
+        out.probe("e2_concurrent_clients")
+    if par:
+        out.probe("multi_open")
+
+
+def run_one_threads(tape, cfg, out):
+    from sim import schedthreads as st
+
+    spec, tcfg, clients, reqs = gen_threads_workload(tape, cfg)
+    vals, calls, deps = gg.evaluate(spec)
+    obs_list, sched = st.run_threads(tape, spec, clients, tcfg)
+    sizes = [len(gg.needed(spec, c["request"], deps)) for c in clients]
+    threads_outcome(out, obs_list, sched, spec, reqs, tcfg, sizes)
+    for i, (obs, c) in enumerate(zip(obs_list, clients)):
+        expected = gg.expected_result(c["request"], vals)
+        if obs.exc is not None:
+            d = sr.describe_exc(obs.exc)
+            oracle = "no_termination" if sr.is_sim_abort(obs.exc) else "get_raised"
+            return out.violate(oracle, f"client {i}: {d['exc_type']} at {d['site']}: {d['msg']}", **d,
+                               entry="threads", chunksize=tcfg["chunksize"])
+        if taskfns.norm(obs.value) != taskfns.norm(expected):
+            return out.violate("wrong_value", f"client {i} (threaded.get, {tcfg}) got {obs.value!r} "
+                                              f"expected {expected!r}", entry="threads")
+    return out
+
+
 def run_one(tape, cfg):
     out = Outcome()
+    if use_threads(tape, cfg):
+        return run_one_threads(tape, cfg, out)
     spec, req_json, request, rcfg = gen_workload(tape, cfg)
     vals, calls, deps = gg.evaluate(spec)
     needed = gg.needed(spec, request, deps)
